@@ -17,11 +17,11 @@ ID = "C03"
 TITLE = "descriptor before record, per stream"
 LEVEL = "exploration"
 RULE = (
-    "a fixed set of 10 record makers: an identifier-coincident pair (same name, same 32-bit hash, different fields), a "
+    "a fixed set of 15 record makers: an identifier-coincident pair (same name, same 32-bit hash, different fields), a "
     "same-name/different-fields pair (different hash), a holder whose inner type occurs only nested in a 'record' field, a "
     "holder with a record[] field whose elements are of the coincident types, a grouped record whose member types occur only "
-    "there, a grouped record with members of the same-name pair, a keyword-field type, a grouped record with the same group name and flat field list as another one but other member types.  Histories: EXHAUSTIVE over all write "
-    "sequences up to length 4 (quick) / 5 (thorough) over the makers, on a binary stream writer and on a JSON-lines writer, "
+    "there, a grouped record with members of the same-name pair, a keyword-field type, a grouped record with the same group name and flat field list as another one but other member types, a type whose records can fail while being packed (good and failing variant: the failing write raises and the application carries on), a grouped record with a member of a coincident type, two grouped records of one group name whose members differ only in a field type.  Histories: EXHAUSTIVE over all write "
+    "sequences up to length 3 (quick) / 4 (thorough) over the makers, sampled one step longer, on a binary stream writer and on a JSON-lines writer, "
     "then random histories of length 20-200 and 2-3 writers open at the same time with interleaved writes.  Oracle per "
     "stream: (binary) the independent reference codec decodes the bytes - every record / nested / grouped identifier must "
     "resolve to the most recent preceding descriptor frame - to exactly the observations written; (JSON) every record line's "
@@ -40,8 +40,9 @@ BUDGET_S = {"quick": 200, "thorough": 1200}
 ANCHORS = ["flow.record.packer:RecordPacker.register", "flow.record.packer:RecordPacker.pack_obj", "flow.record.stream:RecordStreamWriter.on_new_descriptor",
            "flow.record.jsonpacker:JsonRecordPacker.register", "flow.record.adapter.jsonfile:JsonfileWriter.packer_on_new_descriptor"]
 
-NMAKERS = 10
-NONTRIVIAL_ALONE = {4, 5, 6, 7, 9}
+NMAKERS = 15
+BAD_MAKERS = {11}  # writing this record is expected to RAISE (unpackable value); the application carries on
+NONTRIVIAL_ALONE = {4, 5, 6, 7, 9, 12}
 
 
 def makers():
@@ -64,6 +65,9 @@ def makers():
     M1b = RecordDescriptor("member/uno", [("string", "m")])
     M2b = RecordDescriptor("member/duo", [("uint16", "n")])
     K = RecordDescriptor("kw/type", [("string", "class"), ("varint", "from")])
+    BD = RecordDescriptor("bad/able", [("dictlist", "dl"), ("string", "s")])
+    T1 = RecordDescriptor("val/t", [("string", "value")])
+    T2 = RecordDescriptor("val/t", [("uint32", "value")])
 
     def mk(d, **kw):
         return d.recordType(_generated=g, **kw)
@@ -80,6 +84,14 @@ def makers():
         lambda i: K.recordType(**{"class": "k%d" % i, "from": i, "_generated": g}),
         # same group name and same flat field list as maker 6, but other member types
         lambda i: GroupedRecord("grp/only", [mk(M1b, m="u%d" % i), mk(M2b, n=(i + 1) % 65536)]),
+        # 10 / 11: a type whose records can fail while being packed (a set is not serialisable): 10 good, 11 bad
+        lambda i: mk(BD, dl=[{"k": i}], s="ok%d" % i),
+        lambda i: mk(BD, dl=[{"k": {i, i + 1}}], s="bad%d" % i),
+        # 12: a grouped record with a member of the coincident type B (maker 1)
+        lambda i: GroupedRecord("grp/co", [mk(B, a="gb%d" % i, listb="x"), mk(M1, m="gm%d" % i)]),
+        # 13 / 14: same group name, members of one type NAME and the same field names, differing only in a field type
+        lambda i: GroupedRecord("grp/t", [mk(T1, value="v%d" % i)]),
+        lambda i: GroupedRecord("grp/t", [mk(T2, value=i)]),
     ]
 
 
@@ -97,7 +109,7 @@ def teardown(ctx):
 
 def generate(ctx):
     idx = 0
-    maxlen = ctx.scale(4, 5)
+    maxlen = ctx.scale(3, 4)
     for n in range(1, maxlen + 1):
         for hist in itertools.product(range(NMAKERS), repeat=n):
             for fmt in ("bin", "json"):
@@ -106,6 +118,8 @@ def generate(ctx):
                 idx += 1
     ctx.exhaustive = True
     rng = random.Random(subseed("c03", ctx.seed, "long", ctx.shard))
+    for i in range(ctx.scale(1500, 12000)):  # one step beyond the enumerated length, sampled
+        yield {"k": "hist", "fmt": rng.choice(["bin", "json"]), "h": [rng.randrange(NMAKERS) for _ in range(maxlen + 1)]}
     for i in range(ctx.scale(12, 150)):
         n = rng.randint(20, 200)
         yield {"k": "hist", "fmt": rng.choice(["bin", "json"]), "h": [rng.randrange(NMAKERS) for _ in range(n)]}
@@ -322,6 +336,15 @@ def run_streams(ctx, case, fmt, nw, ops):
     try:
         for step, (w, m) in enumerate(ops):
             rec = mk[m](step)
+            if m in BAD_MAKERS:
+                # this record cannot be serialised: the write must fail, the application notes it and carries on
+                try:
+                    streams[w].write(rec)
+                except Exception:  # noqa: BLE001
+                    ctx.event("unserialisable_record_refused")
+                    continue
+                ctx.violation(None, "a record holding an unserialisable value (a set) was written without an error", detail={"maker": m, "history": ops})
+                return
             written[w].append(rec)
             try:
                 streams[w].write(rec)
